@@ -24,12 +24,6 @@ def envMarks (m : Member) : List Side :=
 def classEnvMarks (c : Class) : List Side :=
   c.visAnns.filterMap (fun a => match a with | Ann.env s => some s | _ => none)
 
-/-- sufficient for `class_merger_merge` not to panic: everything that is `assert_eq!`-ed agrees
-(class version, access flags, deprecated/synthetic of the class and of shared members, shared InnerClasses entries) -/
-def noPanicB (c s : Class) : Bool :=
-  c.version == s.version && c.access == s.access && c.deprecated == s.deprecated && c.synthetic == s.synthetic &&
-  sharedFlagsOk c.fields s.fields && sharedFlagsOk c.methods s.methods && sharedInnersOk c.inners s.inners
-
 /-- the key lists of both sides are duplicate-free (true of every class file a JVM accepts) -/
 def keysOk (c s : Class) : Bool :=
   keysNodup c.fields && keysNodup s.fields && keysNodup c.methods && keysNodup s.methods &&
